@@ -5,6 +5,8 @@ import (
 	"fmt"
 	"os"
 	"runtime"
+	"runtime/debug"
+	"runtime/pprof"
 	"sort"
 	"strconv"
 	"strings"
@@ -18,6 +20,7 @@ func envOr(k, d string) string {
 }
 
 func main() {
+	debug.SetGCPercent(400)
 	if len(os.Args) < 2 {
 		fmt.Fprintln(os.Stderr, "usage: vcheck run|check|replay|selftest ...")
 		os.Exit(2)
@@ -77,6 +80,11 @@ func cmdRun(args []string) {
 		if k != "" {
 			known[k] = true
 		}
+	}
+	if pf := os.Getenv("VERIF_PROF"); pf != "" {
+		f, _ := os.Create(pf)
+		pprof.StartCPUProfile(f)
+		defer pprof.StopCPUProfile()
 	}
 	res := w.Explore(spec, known, *workers, 0)
 	printResult(res)
